@@ -2,7 +2,10 @@ package det
 
 import (
 	"context"
+	"encoding/json"
 	"fmt"
+	"os"
+	"path/filepath"
 	"testing"
 	"time"
 
@@ -48,7 +51,7 @@ type poolRun struct {
 	stopRets  []int
 	stopCalls []int
 	stopPairs [][2]int // (call, return) of every Stop, also of overlapping ones
-	cancels   []int // moments at which the context given to Run was cancelled
+	cancels   []int    // moments at which the context given to Run was cancelled
 	runRets   []int
 	runCalls  []int
 	deferred  int
@@ -225,6 +228,13 @@ func judgePool(c PoolCase, pr *poolRun) *ev.Result {
 	o := pr.out
 	switch {
 	case o.TimedOut || o.StepLimit:
+		// not a verdict (exit 2) - but keep the case, so that it can be looked at
+		if b, err := json.Marshal(c); err == nil {
+			if d := os.Getenv("VERIF_OUT"); d != "" {
+				_ = os.WriteFile(filepath.Join(d, fmt.Sprintf("infra-C16-%s.json", os.Getenv("VERIF_SHARD"))), b, 0o644)
+			}
+			panic(fmt.Sprintf("INFRA: pool episode did not finish: %+v; case %s", o, b))
+		}
 		panic(fmt.Sprintf("INFRA: pool episode did not finish: %+v", o))
 	case o.Panic != "":
 		r.Failf("panic: %s", firstLines(o.Panic, 6))
